@@ -9,7 +9,7 @@ package processor
 //verif:entry VerifC19InputLookup conf=0 replay=no
 //verif:stub-always github.com/siglens/siglens/pkg/config.GetLookupPath verifC19LookupPath
 //verif:stub-always os.Open verifC19Open
-//verif:bound inputlookup file name = 0..7 free printable-ASCII bytes followed by ".csv"; data directory /d/, lookup directory /d/lookups/
+//verif:bound inputlookup file name = 0..7 free printable-ASCII bytes followed by ".csv"; the options start, max, append, strict and the first-command / previous-results flags free, directly or after a Rewind; data directory /d/, lookup directory /d/lookups/
 //verif:assume os.Open is a path monitor (records the path, fails)
 
 import (
@@ -37,7 +37,14 @@ func VerifC19InputLookup() {
 	for _, c := range b {
 		zz.Assume(c >= 0x20 && c < 0x7f)
 	}
-	p := &inputlookupProcessor{options: &structs.InputLookup{Filename: string(b) + ".csv", IsFirstCommand: true}}
+	// every other client-controlled option is free as well: none of them may switch the check off
+	start := zz.U64("start")
+	opts := &structs.InputLookup{Filename: string(b) + ".csv", IsFirstCommand: zz.Bool("isFirstCommand"), Start: start,
+		Max: zz.U64("max"), Append: zz.Bool("append"), Strict: zz.Bool("strict"), HasPrevResults: zz.Bool("hasPrevResults")}
+	p := &inputlookupProcessor{options: opts, start: start}
+	if zz.Bool("afterRewind") {
+		p.Rewind()
+	}
 	_, _ = p.Process(nil)
 	for _, path := range verifC19Opened {
 		c := filepath.Clean(path)
